@@ -10,6 +10,7 @@ import (
 	"fmt"
 	"os"
 	"runtime"
+	"strconv"
 	"sync"
 	"time"
 )
@@ -160,7 +161,13 @@ func Concrete(x int) int { return x }
 func Yield() { runtime.Gosched() }
 
 // Quiesce lets all other goroutines run until none can make progress.
-func Quiesce() { time.Sleep(30 * time.Millisecond) }
+func Quiesce() {
+	ms := 30
+	if v, err := strconv.Atoi(os.Getenv("VERIF_QUIESCE_MS")); err == nil && v > 0 {
+		ms = v
+	}
+	time.Sleep(time.Duration(ms) * time.Millisecond)
+}
 
 // Blocked is only meaningful under the engine.
 func Blocked() int { return 0 }
